@@ -32,6 +32,7 @@ MaxBig == {50, 200}
 TicksQ == {0, 51, 2048}                                   \* 0, ~50 ms, 2 s
 TicksT == {0, 10, 51, 205, 2048}                          \* 0, ~10 ms, ~50 ms, ~200 ms, 2 s
 StartQ == {-1, 3}                                         \* start() / start(3)
+StartOne == {-1}
 StartT == {-1, 0, 3, 10}
 AdvQ == {1, 2}
 AdvBig == {1, 7, 29}
@@ -59,7 +60,19 @@ HMessage == \E m \in Msgs : cfg.fmt # "normal" /\ m # bar.msg /\ H(SetMessage(m)
 
 HNext == HStart \/ HAdvance \/ HSet \/ HDisplay \/ HClear \/ HFinish \/ HMessage
 HSpec == HInit /\ [][HNext]_hvars
-HView == <<vars, Len(hist)>>
+\* `last` (what the last call was and what it wrote) and `hist` are observations only: they are kept out of the VIEW,
+\* and the clauses that talk about `last` are checked on every transition as action properties (TLC evaluates
+\* those also for successors whose view was seen before); clauses over the rest of the state are invariants
+HView == <<cfg, bar, sec, term, shown, sinceAdv, plog, Len(hist)>>
+PFrameShape == [][FrameShape']_hvars
+PBarWidth == [][BarWidthOK']_hvars
+PStep == [][StepOK']_hvars
+PPercent == [][PercentOK']_hvars
+PThrottle == [][ThrottleOK']_hvars
+PMaxDraws == [][MaxDraws']_hvars
+PFinish == [][FinishOK']_hvars
+PQuiet == [][QuietNothing']_hvars
+PPlainOps == [][(Plain => OnlyPlain(last.ops))']_hvars
 
 Emit == Len(hist) = Depth => PrintT(ToJson([cfg |-> cfg, events |-> hist]))
 =============================================================================
